@@ -67,12 +67,29 @@ fn dbl(x: u64) -> u64 { x.wrapping_mul(2) }
 fn inc(x: u64) -> u64 { x.wrapping_add(1) }
 #[inline(never)] pub fn t38(a: u64, b: u64) -> u64 { let tbl: [(fn(u64) -> u64, u64); 2] = [(dbl, 3), (inc, 5)]; let mk: [fn(u64) -> Option<u64>; 2] = [Some, opt]; tbl.iter().filter_map(|&(f, k)| (f(a % 100) > b % 50).then_some(f(a % 100) * k)).reduce(|x, y| x + y).unwrap_or(7) + 1000 * mk.iter().map(|m| m(b % 9).unwrap_or(3)).sum::<u64>() }
 
+// ---- base models (the ones the unchanged tree's proofs rely on)
+#[inline(never)] pub fn t39(a: u64, b: u64) -> u64 { let x = opt(a); let y = opt(b); x.unwrap_or(5) % 100 + 100 * u64::from(x.is_some()) + 200 * u64::from(y.is_none()) + 1000 * x.or(y).unwrap_or(3) % 100_000 + x.map(|v| v % 7).unwrap_or_default() + u64::from(x.is_some_and(|v| v % 2 == 0)) * 7_000_000 }
+#[inline(never)] pub fn t40(a: u64, b: u64) -> u64 { let r: Result<u64, String> = opt(a).ok_or("none".to_string()); let r2 = r.map_err(|e| e.len() as u64); (match r2 { Ok(v) => v % 1000, Err(e) => 5000 + e }) + opt(b).ok_or_else(|| 9u8).map_or_else(|e| u64::from(e), |v| v % 10) * 10_000 }
+#[inline(never)] pub fn t41(a: u64, b: u64) -> u64 { let mut v: Vec<u8> = Vec::new(); for x in small(a) { v.push(x); } v.push((b % 8) as u8); let p = v.pop().unwrap_or(9); v.retain(|&x| x != 3); let l = v.len() as u64; u64::from(p) + 10 * l + 100 * u64::from(v.contains(&2)) + 1000 * u64::from(*v.first().unwrap_or(&8)) + 10_000 * u64::from(*v.last().unwrap_or(&8)) + 100_000 * u64::from(v.is_empty()) }
+#[inline(never)] pub fn t42(a: u64, b: u64) -> u64 { let s = small(a); let v: Vec<u64> = s.iter().map(|&x| u64::from(x) + b % 3).filter(|x| x % 2 == 0).collect(); let w: Vec<u8> = s.iter().flat_map(|&x| vec![x, x / 2]).collect(); v.iter().sum::<u64>() + 100 * v.len() as u64 + 10_000 * w.len() as u64 + 1_000_000 * w.iter().position(|&x| x == 1).map_or(99, |p| p as u64) + 100_000_000 * u64::from(s.iter().any(|&x| x == 7)) + s.iter().find(|&&x| x > 4).map_or(0, |&x| u64::from(x)) * 1_000_000_000 }
+#[inline(never)] pub fn t43(a: u64, b: u64) -> u64 { let mut acc = 0u64; for i in 0..(a % 9) { acc = acc * 3 + i; } for i in (1..=(b % 7)).rev() { acc = acc * 5 + i; } for (i, x) in small(a).iter().enumerate() { acc += (i as u64) * u64::from(*x); } for i in (0..(b % 5) as u8).rev() { acc = acc * 2 + u64::from(i); } acc }
+#[inline(never)] pub fn t44(a: u64, b: u64) -> u64 { u64::from(a.count_ones()) + 100 * u64::from(a.trailing_zeros()) + 10_000 * u64::from(a.leading_zeros()) + (a.swap_bytes() % 997) * 1_000_000 + (a.reverse_bits() % 991) * 1_000_000_000 + (a % 1000).div_ceil(b % 7 + 1) * 1_000_000_000_000 }
+#[inline(never)] pub fn t45(a: u64, b: u64) -> u64 { let x = a as u8; let y = b as u8; u64::from(x.checked_add(y).unwrap_or(0)) + 256 * u64::from(x.checked_sub(y).unwrap_or(1)) + 65536 * u64::from(x.saturating_add(y)) + 16_777_216 * u64::from(x.saturating_sub(y)) + 4_294_967_296 * u64::from(x.wrapping_mul(y)) + (1u64 << 40) * u64::from(x.max(y)) + (1u64 << 48) * u64::from(x.min(y)) + (1u64 << 56) * u64::from((a as i16).saturating_neg() as u16 as u8) }
+#[inline(never)] pub fn t46(a: u64, b: u64) -> u64 { let x = (a % 64) as u32; (1u64.checked_shl(x).unwrap_or(0) % 1_000_003) + (b.checked_shr((a % 70) as u32).unwrap_or(7) % 1009) * 1_000_000 + u64::from((a as u16) >> (b % 16)) * 1_000_000_000 + (((a as i32) >> (b % 31)) as u32 as u64 % 1013) * 1_000_000_000_000 }
+#[inline(never)] pub fn t47(a: u64, b: u64) -> u64 { let x = a as i64; let y = (b % 1000) as i64 - 500; ((x as i8) as i64 + 200) as u64 + ((a as u32) as u64 % 1000) * 1000 + (u64::from(a as u16) ^ u64::from(b as u8)) * 1_000_000 + (if y != 0 { (x % 100_000 / y + 1_000_000) as u64 } else { 0 }) * 1_000_000_000 % 1_000_000_000_000_000 + (if y != 0 { ((x % 100_000) % y + 1000) as u64 } else { 0 }) }
+#[inline(never)] pub fn t48(a: u64, b: u64) -> u64 { let s: String = format!("{}{}", (b'a' + (a % 8) as u8) as char, (b % 8) + 1); let mut t = String::new(); for c in s.chars() { t.push(c); } t.push('q'); let n: u64 = ((a % 10_000).to_string()).parse().unwrap_or(1); let bad: Result<u8, _> = "300".parse::<u8>(); u64::from(t == "a1q") + 2 * u64::from(s.as_str() == t.as_str()) + 4 * u64::from(t.is_empty()) + 8 * n + 1_000_000 * u64::from(bad.is_err()) + 10_000_000 * u64::from(s.chars().next().unwrap_or('z') as u32 - 'a' as u32) }
+#[inline(never)] pub fn t49(a: u64, b: u64) -> u64 { let mut arr = [[0u8; 3]; 4]; for i in 0..4 { for j in 0..3 { arr[i][j] = ((a >> (i * 3 + j)) & 3) as u8; } } let i = (b % 4) as usize; let j = (b / 4 % 3) as usize; arr[i][j] = arr[i][j].wrapping_add(9); let mut s = small(a); s.swap((b % 6) as usize, (a % 6) as usize); arr.iter().flatten().fold(0u64, |acc, &e| acc * 13 + u64::from(e)) % 1_000_000_007 + u64::from(s[2]) * 2_000_000_000 }
+#[inline(never)] pub fn t50(a: u64, b: u64) -> u64 { #[derive(Clone, Copy, PartialEq, Eq, Default)] struct P { x: u8, y: Option<u8> } let p = P { x: (a % 5) as u8, y: if b % 2 == 0 { Some((b % 7) as u8) } else { None } }; let q = P { x: (b % 5) as u8, ..p }; let d = P::default(); u64::from(p == q) + 2 * u64::from(p != d) + 4 * u64::from(Some(p) == Some(q)) + 8 * u64::from(q.clone().x) + 100 * u64::from(p.y.unwrap_or(9)) + 1000 * u64::from(u8::try_from(a % 300).unwrap_or(255)) + 1_000_000 * u64::from(u16::from(p.x) + 1) }
+
+#[inline(never)] pub fn t51(a: u64, b: u64) -> u64 { let mut s = small(a); s.sort(); let mut t = small(b).to_vec(); t.sort_by_key(|&x| x % 3); t.extend(s.iter().copied()); t.extend_from_slice(&s[..2]); let mut d = vec![1u8, 1, 2, 2, 2, 3, 1]; d.dedup(); s.iter().fold(0u64, |acc, &e| acc * 8 + u64::from(e)) + t.iter().fold(0u64, |acc, &e| acc.wrapping_mul(9).wrapping_add(u64::from(e))) % 1_000_003 * 1_000_000 + d.len() as u64 * 1_000_000_000_000_000 }
+#[inline(never)] pub fn t52(a: u64, b: u64) -> u64 { let w = ["go", "stop", "name x", "value=3"][(a % 4) as usize]; u64::from(w.starts_with("na")) + 2 * u64::from(w.ends_with('p')) + 4 * w.strip_prefix("va").map_or(9, |r| r.len() as u64) + 100 * w.split_once(' ').map_or(7, |(l, r)| (l.len() * 10 + r.len()) as u64) + 10_000 * u64::from(w.contains("to")) + 100_000 * w.trim().len() as u64 + b % 2 }
+
 fn main() {
     let args: Vec<String> = std::env::args().collect();
     let id: usize = args[1].parse().unwrap();
     let a: u64 = args[2].parse().unwrap();
     let b: u64 = args[3].parse().unwrap();
-    let fs: [fn(u64, u64) -> u64; 39] = [t00, t01, t02, t03, t04, t05, t06, t07, t08, t09, t10, t11, t12, t13, t14, t15, t16, t17, t18, t19, t20, t21, t22, t23, t24, t25, t26, t27, t28, t29, t30, t31, t32, t33, t34, t35, t36, t37, t38];
+    let fs: [fn(u64, u64) -> u64; 53] = [t00, t01, t02, t03, t04, t05, t06, t07, t08, t09, t10, t11, t12, t13, t14, t15, t16, t17, t18, t19, t20, t21, t22, t23, t24, t25, t26, t27, t28, t29, t30, t31, t32, t33, t34, t35, t36, t37, t38, t39, t40, t41, t42, t43, t44, t45, t46, t47, t48, t49, t50, t51, t52];
     let r = std::panic::catch_unwind(|| fs[id](a, b));
     match r { Ok(v) => println!("OK {v}"), Err(_) => println!("PANIC") }
 }
